@@ -13,6 +13,7 @@ import (
 	"net/url"
 	"path"
 	"regexp"
+	"sort"
 	"strings"
 
 	"github.com/go-openapi/loads"
@@ -605,6 +606,18 @@ type nextLog struct {
 	called                                    bool
 	sameMethod, sameURL, sameHeader, sameBody bool
 	samePtr                                   bool
+	entered                                   bool     // a handler behind the document middlewares was entered (next, or the API's matched route)
+	hdrKeys                                   []string // keys already present in the ResponseWriter's header map on entry
+	mode                                      int      // how next answers: 0 typed (299), 1 plain Write without Content-Type, 2 204 No Content
+}
+
+func headerKeys(h http.Header) []string {
+	ks := []string{}
+	for k := range h {
+		ks = append(ks, k)
+	}
+	sort.Strings(ks)
+	return ks
 }
 
 func build(cfg Cfg, nl *nextLog, orig, sent **http.Request, sentBody *string, ran *int) (h http.Handler, panicMsg string) {
@@ -616,7 +629,8 @@ func build(cfg Cfg, nl *nextLog, orig, sent **http.Request, sentBody *string, ra
 	var next http.Handler
 	if cfg.HasNext && !isAPI(cfg.Kind) {
 		next = http.HandlerFunc(func(w http.ResponseWriter, r *http.Request) {
-			nl.called = true
+			nl.called, nl.entered = true, true
+			nl.hdrKeys = headerKeys(w.Header())
 			s := *sent
 			nl.samePtr = r == *orig
 			nl.sameMethod = r.Method == s.Method
@@ -624,9 +638,16 @@ func build(cfg Cfg, nl *nextLog, orig, sent **http.Request, sentBody *string, ra
 			nl.sameHeader = fmt.Sprint(r.Header) == fmt.Sprint(s.Header)
 			b, _ := io.ReadAll(r.Body)
 			nl.sameBody = string(b) == *sentBody
-			w.Header().Set("Content-Type", "text/x-next")
-			w.WriteHeader(299)
-			_, _ = w.Write([]byte("next"))
+			switch nl.mode {
+			case 1: // relies on the server sniffing the type
+				_, _ = w.Write([]byte("next answers in plain text"))
+			case 2:
+				w.WriteHeader(http.StatusNoContent)
+			default:
+				w.Header().Set("Content-Type", "text/x-next")
+				w.WriteHeader(299)
+				_, _ = w.Write([]byte("next"))
+			}
 		})
 	}
 	tpl := ""
@@ -689,13 +710,21 @@ func build(cfg Cfg, nl *nextLog, orig, sent **http.Request, sentBody *string, ra
 	if cfg.Custom {
 		opts = append(opts, middleware.WithTemplate(customTemplate))
 	}
+	// the builder's handler runs for every matched route: it sees the ResponseWriter as the document middlewares hand it on
+	builder := func(nx http.Handler) http.Handler {
+		return http.HandlerFunc(func(w http.ResponseWriter, r *http.Request) {
+			nl.entered = true
+			nl.hdrKeys = headerKeys(w.Header())
+			nx.ServeHTTP(w, r)
+		})
+	}
 	switch cfg.Kind {
 	case "api-redoc":
-		return ctx.APIHandler(nil, opts...), ""
+		return ctx.APIHandler(builder, opts...), ""
 	case "api-swaggerui":
-		return ctx.APIHandlerSwaggerUI(nil, opts...), ""
+		return ctx.APIHandlerSwaggerUI(builder, opts...), ""
 	case "api-rapidoc":
-		return ctx.APIHandlerRapiDoc(nil, opts...), ""
+		return ctx.APIHandlerRapiDoc(builder, opts...), ""
 	}
 	panic("c20: unknown kind " + cfg.Kind)
 }
@@ -748,12 +777,12 @@ func execute(c *drv.Ctx, d M) bool {
 		hs[i] = h
 	}
 	docAnswered, passed := false, false
-	for _, rq := range reqs {
+	for ri, rq := range reqs {
 		cfg, h := cfgs[rq.Inst-1], hs[rq.Inst-1]
 		if h == nil {
 			continue
 		}
-		nl = nextLog{}
+		nl = nextLog{mode: ri % 3}
 		ran = 0
 		var rd io.Reader
 		if rq.Body != "" {
@@ -794,7 +823,8 @@ func execute(c *drv.Ctx, d M) bool {
 		}
 		c.W.Event("req", M{"inst": rq.Inst, "method": rq.Method, "target": trace.B(rq.Target), "urlpath": trace.B(urlpath), "noescape": req.URL.EscapedPath() == urlpath,
 			"next_called": nl.called, "same_method": nl.sameMethod, "same_url": nl.sameURL, "same_header": nl.sameHeader,
-			"same_body": nl.sameBody, "same_ptr": nl.samePtr, "status": w.Code, "ctype": ctype, "sha": sha8(body), "ran": ran,
+			"same_body": nl.sameBody, "same_ptr": nl.samePtr, "entered": nl.entered, "next_hdr": trace.S(nl.hdrKeys), "next_mode": ri % 3,
+			"status": w.Code, "ctype": ctype, "sha": sha8(body), "ran": ran,
 			"panic": panicked, "slots": slots, "specref": specref})
 		if w.Code == 200 && (ctype == "application/json" || strings.HasPrefix(ctype, "text/html")) && ran == 0 {
 			docAnswered = true
